@@ -89,5 +89,36 @@ META["C09"] = {
     "technique": "Lean 4 arithmetic theorems over regenerated constants + differential correspondence at size boundaries",
 }
 
+_KE_NOTE = _NOTE + (" Cryptography is modelled symbolically (ideal primitives, Dolev-Yao style adversary restricted to the listed term "
+                     "constructions); computational soundness is not claimed.")
+META["C02"] = {
+    "text": "Proof: in every world reachable with any number of honest sessions and a symbolic adversary controlling the transport, "
+            "every plaintext delivered by a session whose authenticated peer key is honest was handed to Send by that peer's "
+            "session of the same handshake as that very ciphertext; no session accepts a ciphertext twice and no ciphertext is "
+            "accepted by two sessions (replay filter modelled exactly and proved at-most-once for all counter sequences); data "
+            "counters of a session are distinct, >= 16 and below the limit that fits the 32-bit header. Real sessions/channels "
+            "are compared with the model in lock step each run.",
+    "design_ref": "DESIGN.md section 5 C02", "note": _KE_NOTE,
+    "technique": "Lean 4 inductive invariant over adversary traces (symbolic model) + exact replay-filter proof + lock-step differential correspondence",
+}
+META["C03"] = {
+    "text": "Proof: a responder at hsIndex >= 3 / an initiator at hsIndex >= 2 that reports an honest remote key has as its peer an "
+            "honest session owned by that key which ran this very handshake (same ephemerals and claim); hence a party without "
+            "the key, replaying or splicing signed material, never brings a session to usable with a victim's key; application "
+            "data is accepted/encrypted only behind the canReceive/canSend gates; the two signature purposes read from the "
+            "source differ. Real sessions are driven with spliced hellos, foreign ephemerals and adversary-keyed sessions each run.",
+    "design_ref": "DESIGN.md section 5 C03", "note": _KE_NOTE,
+    "technique": "Lean 4 inductive invariant (signature provenance and secrecy) over a symbolic adversary + lock-step differential correspondence",
+}
+META["C06"] = {
+    "text": "Proof: for every finite schedule of deliver/duplicate/reorder/reflect/retransmit/send actions over the genuine messages of "
+            "one honest pair, sessions never regress, a rejected genuine message leaves the session unchanged, the cached "
+            "handshake message always exists and is a function of the handshake index, and delivering each side's current "
+            "handshake message once more in sequence makes both ready with data flowing both ways. The same schedules run on "
+            "real sessions each run (model correspondence and a direct completion oracle).",
+    "design_ref": "DESIGN.md section 5 C06", "note": _KE_NOTE,
+    "technique": "Lean 4 pair invariant over arbitrary schedules + completion theorem; lock-step differential correspondence",
+}
+
 _PENDING = "check under construction in this build round; will be claimed once its model, theorems and correspondence stream pass on the unchanged tree"
 NOT_APPLICABLE = {("C%02d" % i): _PENDING for i in range(1, 21)}
